@@ -34,7 +34,7 @@ class C18(DiffCheck):
                   "finding R3 excluded by construction.")
     technique = "Hypothesis-generated histories + differential oracle across 8 configurations + exact list-answer oracle, script-level ddmin"
     assumptions = ["allocation outcome is a generated input (random shim), identical in all worlds"]
-    quick = dict(examples=320, max_ops=40, workers=8)
+    quick = dict(examples=480, max_ops=40, workers=8)
     thorough = dict(examples=16000, max_ops=100, workers=16)
 
     def cfg_strategy(self):
